@@ -4,7 +4,16 @@ From Coq Require Import String Ascii Bool ZArith QArith Qabs Arith Lia List.
 From Splinkv Require Import Base.TV Model.SqlExpr Model.Levels.
 Import ListNotations.
 Local Open Scope nat_scope.
-Local Open Scope string_scope.
+Local Open Scope list_scope.
+Local Arguments Qred : simpl never.
+Local Arguments Qabs : simpl never.
+Local Arguments Qminus : simpl never.
+Local Arguments Qdiv : simpl never.
+Local Arguments Qmult : simpl never.
+Local Arguments Qplus : simpl never.
+Local Arguments Qle_bool : simpl never.
+Local Arguments Qeq_bool : simpl never.
+Local Arguments inject_Z : simpl never.
 
 (* ------------------------------------------------------------------ induction over expr *)
 Section ExprInd.
@@ -126,3 +135,537 @@ Proof.
   unfold same_expr. intros H P fenv env. apply expr_eqb_eq in H.
   rewrite <- (eval_strip P fenv env cur), <- (eval_strip P fenv env gen). now rewrite H.
 Qed.
+
+(* ------------------------------------------------------------------ basic value lemmas *)
+Lemma to_tv_of_tv t : to_tv (of_tv t) = t.
+Proof. destruct t; reflexivity. Qed.
+
+Lemma numQ_xnum v q : numQ v = Some q -> to_xnum v = Some (XFin q) /\ is_null v = false.
+Proof. destruct v; cbn; try discriminate; intros [= <-]; auto. Qed.
+
+(* lhs op t on two numbers: of_bool (sat op t lhs) *)
+Lemma cmp3_thresh op a b x y :
+  is_thresh_op op = true -> numQ a = Some x -> numQ b = Some y ->
+  cmp3 op a b = of_bool (sat op y x).
+Proof.
+  intros Hop Ha Hb. apply numQ_xnum in Ha as [Ha Na]. apply numQ_xnum in Hb as [Hb Nb].
+  unfold cmp3, val_le. rewrite Na, Nb, Ha, Hb. cbn.
+  destruct op; try discriminate; cbn; try reflexivity.
+  - destruct (Qle_bool y x); reflexivity.
+  - destruct (Qle_bool x y); reflexivity.
+Qed.
+
+Lemma cmp3_eq_str a b : cmp3 CEq (VStr a) (VStr b) = of_bool (String.eqb a b).
+Proof. reflexivity. Qed.
+Lemma cmp3_eq_int a b : cmp3 CEq (VInt a) (VInt b) = of_bool (Z.eqb a b).
+Proof.
+  unfold cmp3, val_eq. cbn [is_null orb to_xnum xeq opt_tv]. f_equal.
+  destruct (Z.eqb_spec a b) as [->|N].
+  - apply Qeq_bool_iff. reflexivity.
+  - destruct (Qeq_bool (inject_Z a) (inject_Z b)) eqn:E; [|reflexivity].
+    apply Qeq_bool_iff in E. exfalso. apply N. now apply inject_Z_injective.
+Qed.
+Lemma cmp3_null_l op b : cmp3 op VNull b = U.
+Proof. reflexivity. Qed.
+Lemma cmp3_null_r op a : cmp3 op a VNull = U.
+Proof. unfold cmp3. now rewrite orb_true_r. Qed.
+
+Lemma and3_assoc a b c : and3 (and3 a b) c = and3 a (and3 b c).
+Proof. destruct a, b, c; reflexivity. Qed.
+Lemma or3_assoc a b c : or3 (or3 a b) c = or3 a (or3 b c).
+Proof. destruct a, b, c; reflexivity. Qed.
+
+Definition and3_all (l : list tv) : tv := fold_right and3 T l.
+Definition or3_all (l : list tv) : tv := fold_right or3 F l.
+
+(* ------------------------------------------------------------------ generators *)
+Section Gen.
+  Variable P : profile.
+  Variable fenv : string -> list val -> val.
+  Variable env : bool -> string -> val.
+  Notation ev := (eval P fenv env).
+  Notation sm := (sem P fenv env).
+
+  Lemma sem_and a b : sm (EAnd a b) = and3 (sm a) (sm b).
+  Proof. unfold sem. cbn [eval]. apply to_tv_of_tv. Qed.
+  Lemma sem_or a b : sm (EOr a b) = or3 (sm a) (sm b).
+  Proof. unfold sem. cbn [eval]. apply to_tv_of_tv. Qed.
+  Lemma sem_not a : sm (ENot a) = not3 (sm a).
+  Proof. unfold sem. cbn [eval]. apply to_tv_of_tv. Qed.
+  Lemma sem_paren a : sm (EParen a) = sm a.
+  Proof. reflexivity. Qed.
+  Lemma sem_cmp op a b : sm (ECmp op a b) = cmp3 op (ev a) (ev b).
+  Proof. unfold sem. cbn [eval]. apply to_tv_of_tv. Qed.
+  Lemma sem_isnull a : sm (EIsNull a) = of_bool (is_null (ev a)).
+  Proof. unfold sem. cbn [eval]. destruct (is_null (ev a)); reflexivity. Qed.
+
+  (* NullLevel *)
+  Lemma sem_null cl cr : sm (gen_null cl cr) = of_bool (doc_null (ev cl) (ev cr)).
+  Proof.
+    unfold gen_null, doc_null. rewrite sem_or, !sem_isnull.
+    destruct (is_null (ev cl)), (is_null (ev cr)); reflexivity.
+  Qed.
+  Lemma null_level_T_iff cl cr :
+    sm (gen_null cl cr) = T <-> ev cl = VNull \/ ev cr = VNull.
+  Proof.
+    rewrite sem_null. unfold doc_null. split.
+    - destruct (ev cl), (ev cr); cbn; intros; try discriminate; auto.
+    - intros [-> | ->]; cbn; [reflexivity|]. now rewrite orb_true_r.
+  Qed.
+  Lemma null_level_two_valued cl cr : sm (gen_null cl cr) <> U.
+  Proof. rewrite sem_null. destruct (doc_null _ _); discriminate. Qed.
+
+  (* ExactMatchLevel, LiteralMatchLevel, ColumnsReversedLevel *)
+  Lemma sem_exact cl cr : sm (gen_exact cl cr) = cmp3 CEq (ev cl) (ev cr).
+  Proof. apply sem_cmp. Qed.
+  Lemma sem_exact_str cl cr a b :
+    ev cl = VStr a -> ev cr = VStr b -> sm (gen_exact cl cr) = of_bool (String.eqb a b).
+  Proof. intros Ha Hb. now rewrite sem_exact, Ha, Hb. Qed.
+  Lemma sem_exact_int cl cr a b :
+    ev cl = VInt a -> ev cr = VInt b -> sm (gen_exact cl cr) = of_bool (Z.eqb a b).
+  Proof. intros Ha Hb. rewrite sem_exact, Ha, Hb. apply cmp3_eq_int. Qed.
+
+  Lemma sem_literal s cl cr lit :
+    sm (gen_literal s cl cr lit) =
+    match s with
+    | SLeft => cmp3 CEq (ev cl) (ev lit)
+    | SRight => cmp3 CEq (ev cr) (ev lit)
+    | SBoth => and3 (cmp3 CEq (ev cl) (ev lit)) (cmp3 CEq (ev cr) (ev lit))
+    end.
+  Proof. destruct s; cbn [gen_literal]; rewrite ?sem_and, !sem_cmp; reflexivity. Qed.
+  Lemma sem_literal_str s cl cr a b x :
+    ev cl = VStr a -> ev cr = VStr b ->
+    sm (gen_literal s cl cr (ELit (VStr x))) =
+    of_bool match s with
+            | SLeft => String.eqb a x
+            | SRight => String.eqb b x
+            | SBoth => String.eqb a x && String.eqb b x
+            end.
+  Proof.
+    intros Ha Hb. rewrite sem_literal, Ha, Hb. cbn [eval]. rewrite !cmp3_eq_str.
+    destruct s; try reflexivity. destruct (String.eqb a x), (String.eqb b x); reflexivity.
+  Qed.
+
+  Lemma sem_reversed sym c1l c1r c2l c2r :
+    sm (gen_reversed sym c1l c1r c2l c2r) =
+    if sym then and3 (cmp3 CEq (ev c1l) (ev c2r)) (cmp3 CEq (ev c1r) (ev c2l))
+    else cmp3 CEq (ev c1l) (ev c2r).
+  Proof. destruct sym; cbn [gen_reversed]; rewrite ?sem_and, !sem_cmp; reflexivity. Qed.
+  Lemma sem_reversed_str sym c1l c1r c2l c2r a1 b1 a2 b2 :
+    ev c1l = VStr a1 -> ev c1r = VStr b1 -> ev c2l = VStr a2 -> ev c2r = VStr b2 ->
+    sm (gen_reversed sym c1l c1r c2l c2r) =
+    of_bool (if sym then String.eqb a1 b2 && String.eqb b1 a2 else String.eqb a1 b2).
+  Proof.
+    intros H1 H2 H3 H4. rewrite sem_reversed, H1, H2, H3, H4, !cmp3_eq_str.
+    destruct sym; try reflexivity. destruct (String.eqb a1 b2), (String.eqb b1 a2); reflexivity.
+  Qed.
+
+  (* threshold levels over a named function *)
+  Lemma sem_fn_thresh f hi cl cr t q tq :
+    numQ (fenv f [ev cl; ev cr]) = Some q -> numQ t = Some tq ->
+    sm (gen_fn_thresh f hi cl cr t) = if hi then doc_ge q tq else doc_le q tq.
+  Proof.
+    intros Hq Ht. unfold gen_fn_thresh. rewrite sem_cmp. cbn [eval map].
+    destruct hi; erewrite cmp3_thresh by eauto; reflexivity.
+  Qed.
+  Lemma sem_fn_thresh_null_arg f hi cl cr t :
+    fenv f [ev cl; ev cr] = VNull -> sm (gen_fn_thresh f hi cl cr t) = U.
+  Proof.
+    intros H. unfold gen_fn_thresh. rewrite sem_cmp. cbn [eval map]. rewrite H. apply cmp3_null_l.
+  Qed.
+
+  (* AbsoluteDifferenceLevel *)
+  Lemma sem_absdiff_num cl cr t x y tq :
+    ev cl = VNum x -> ev cr = VNum y -> numQ t = Some tq ->
+    sm (gen_absdiff cl cr t) = doc_absdiff x y tq.
+  Proof.
+    intros Hx Hy Ht. unfold gen_absdiff. rewrite sem_cmp. cbn [eval]. rewrite Hx, Hy. cbn.
+    erewrite cmp3_thresh by (reflexivity || eauto). unfold doc_absdiff. cbn [sat].
+    now rewrite Qred_correct.
+  Qed.
+  Lemma inject_Z_minus a b : (inject_Z (a - b) == inject_Z a - inject_Z b)%Q.
+  Proof. unfold Qminus. now rewrite <- inject_Z_opp, <- inject_Z_plus. Qed.
+  Lemma sem_absdiff_int cl cr t x y tq :
+    ev cl = VInt x -> ev cr = VInt y -> numQ t = Some tq ->
+    sm (gen_absdiff cl cr t) = doc_absdiff (inject_Z x) (inject_Z y) tq.
+  Proof.
+    intros Hx Hy Ht. unfold gen_absdiff. rewrite sem_cmp. cbn [eval]. rewrite Hx, Hy. cbn.
+    erewrite cmp3_thresh by (reflexivity || eauto). unfold doc_absdiff. cbn [sat].
+    change (inject_Z (Z.abs (x - y))) with (Qabs (inject_Z (x - y))).
+    now rewrite inject_Z_minus.
+  Qed.
+
+  (* PercentageDifferenceLevel: strict, divides by the larger value *)
+  Lemma eval_larger cl cr x y :
+    ev cl = VNum x -> ev cr = VNum y ->
+    ev (EParen (ECase [(ECmp CGt cr cl, cr)] cl)) = VNum (Qmaxb x y).
+  Proof.
+    intros Hx Hy. cbn [eval]. rewrite Hx, Hy. unfold Qmaxb.
+    erewrite cmp3_thresh by reflexivity. cbn [sat].
+    destruct (Qle_bool y x); reflexivity.
+  Qed.
+  Lemma sem_pctdiff_num cl cr t x y tq :
+    ev cl = VNum x -> ev cr = VNum y -> numQ t = Some tq -> Qeq_bool (Qmaxb x y) 0 = false ->
+    sm (gen_pctdiff cl cr t) = doc_pctdiff x y tq.
+  Proof.
+    intros Hx Hy Ht Hz. unfold gen_pctdiff. rewrite sem_cmp.
+    change (ev (EArith Div ?a ?b)) with (arith_val P Div (ev a) (ev b)).
+    rewrite (eval_larger cl cr x y Hx Hy). cbn [eval]. rewrite Hx, Hy. cbn. rewrite Hz.
+    erewrite cmp3_thresh by (reflexivity || eauto). unfold doc_pctdiff. cbn [sat].
+    now rewrite !Qred_correct.
+  Qed.
+  Lemma sem_pctdiff_zero cl cr t x y tq :
+    ev cl = VNum x -> ev cr = VNum y -> numQ t = Some tq -> Qeq_bool (Qmaxb x y) 0 = true ->
+    (div0 P = VNull \/ div0 P = VInf) ->
+    isT (sm (gen_pctdiff cl cr t)) = false.
+  Proof.
+    intros Hx Hy Ht Hz Hd. unfold gen_pctdiff. rewrite sem_cmp.
+    change (ev (EArith Div ?a ?b)) with (arith_val P Div (ev a) (ev b)).
+    rewrite (eval_larger cl cr x y Hx Hy). cbn [eval]. rewrite Hx, Hy. cbn. rewrite Hz.
+    destruct Hd as [-> | ->]; [reflexivity|].
+    apply numQ_xnum in Ht as [Ht Nt]. unfold cmp3. rewrite Nt. cbn. unfold val_le. rewrite Ht. reflexivity.
+  Qed.
+
+  (* AbsoluteTimeDifferenceLevel / AbsoluteDateDifferenceLevel over an abstract epoch *)
+  Lemma sem_timediff epochf cl cr thr m x y tq :
+    fenv epochf [ev cl] = VNum x -> fenv epochf [ev cr] = VNum y ->
+    numQ (time_threshold_seconds thr m) = Some tq ->
+    sm (gen_timediff epochf cl cr thr m) = doc_absdiff x y tq.
+  Proof.
+    intros Hx Hy Ht. unfold gen_timediff. rewrite sem_cmp. cbn [eval map]. rewrite Hx, Hy. cbn.
+    erewrite cmp3_thresh by (reflexivity || eauto). unfold doc_absdiff. cbn [sat].
+    now rewrite Qred_correct.
+  Qed.
+  Lemma sem_timediff_invalid epochf cl cr thr m :
+    fenv epochf [ev cl] = VNull \/ fenv epochf [ev cr] = VNull ->
+    sm (gen_timediff epochf cl cr thr m) = U.
+  Proof.
+    intros H. unfold gen_timediff. rewrite sem_cmp. cbn [eval map].
+    destruct H as [-> | ->]; [reflexivity|].
+    destruct (fenv epochf [ev cl]); reflexivity.
+  Qed.
+
+  (* And / Or / Not *)
+  Lemma sem_merge_and es a :
+    sm (fold_left (fun acc x => EAnd acc (EParen x)) es a) = fold_left (fun r x => and3 r (sm x)) es (sm a).
+  Proof. revert a. induction es as [|x t IH]; intros a; cbn [fold_left]; [reflexivity|]. now rewrite IH, sem_and. Qed.
+  Lemma sem_merge_or es a :
+    sm (fold_left (fun acc x => EOr acc (EParen x)) es a) = fold_left (fun r x => or3 r (sm x)) es (sm a).
+  Proof. revert a. induction es as [|x t IH]; intros a; cbn [fold_left]; [reflexivity|]. now rewrite IH, sem_or. Qed.
+  Lemma fold_and3 l r : fold_left (fun r x => and3 r (sm x)) l r = and3 r (and3_all (map sm l)).
+  Proof.
+    revert r. induction l as [|x t IH]; intros r; cbn; [destruct r; reflexivity|].
+    rewrite IH. apply and3_assoc.
+  Qed.
+  Lemma fold_or3 l r : fold_left (fun r x => or3 r (sm x)) l r = or3 r (or3_all (map sm l)).
+  Proof.
+    revert r. induction l as [|x t IH]; intros r; cbn; [destruct r; reflexivity|].
+    rewrite IH. apply or3_assoc.
+  Qed.
+  Lemma sem_gen_and es : es <> [] -> sm (gen_and es) = and3_all (map sm es).
+  Proof.
+    destruct es as [|e t]; [congruence|]. intros _. unfold gen_and, gen_merge.
+    rewrite sem_merge_and, fold_and3. reflexivity.
+  Qed.
+  Lemma sem_gen_or es : es <> [] -> sm (gen_or es) = or3_all (map sm es).
+  Proof.
+    destruct es as [|e t]; [congruence|]. intros _. unfold gen_or, gen_merge.
+    rewrite sem_merge_or, fold_or3. reflexivity.
+  Qed.
+  Lemma sem_gen_not e : sm (gen_not e) = not3 (sm e).
+  Proof. unfold gen_not. now rewrite sem_not. Qed.
+
+  (* CASE: value of the first WHEN whose condition is TRUE, else ELSE *)
+  Lemma eval_case_pick ws d :
+    ev (ECase ws d) =
+    match nth_error ws (pick (map (fun cv => sm (fst cv)) ws)) with
+    | Some cv => ev (snd cv)
+    | None => ev d
+    end.
+  Proof.
+    cbn [eval]. induction ws as [|[c v] t IH]; [reflexivity|].
+    cbn [map pick fst snd]. unfold sem at 1. destruct (isT (to_tv (ev c))); [reflexivity|]. exact IH.
+  Qed.
+
+  (* a null-level condition built from IS NULL / AND / OR is never unknown *)
+  Lemma null_shape_two_valued e : null_shape e = true -> sm e <> U.
+  Proof.
+    induction e using expr_ind2; cbn [null_shape]; try discriminate; intros Hs.
+    - apply andb_true_iff in Hs as [H1 H2]. rewrite sem_and.
+      specialize (IHe1 H1). specialize (IHe2 H2). destruct (sm e1), (sm e2); cbn; congruence.
+    - apply andb_true_iff in Hs as [H1 H2]. rewrite sem_or.
+      specialize (IHe1 H1). specialize (IHe2 H2). destruct (sm e1), (sm e2); cbn; congruence.
+    - rewrite sem_isnull. destruct (is_null _); discriminate.
+    - rewrite sem_paren. auto.
+  Qed.
+
+  (* threshold atoms are necessary conjuncts of their condition *)
+  Lemma atoms_necessary e : sm e = T ->
+    forall op lhs t v, In (op, lhs, t) (atoms e) -> numQ (ev lhs) = Some v -> sat op t v = true.
+  Proof.
+    induction e using expr_ind2; cbn [atoms]; intros HT xop xlhs xt xv Hin Hv; try contradiction.
+    - destruct e2; try contradiction.
+      destruct (is_thresh_op op) eqn:Hop; [|contradiction].
+      destruct (numQ v) eqn:Hq; [|contradiction].
+      destruct Hin as [[= <- <- <-]|[]]. rewrite eval_strip in Hv.
+      rewrite sem_cmp in HT. cbn [eval] in HT. erewrite cmp3_thresh in HT by eauto.
+      destruct (sat op q xv); [reflexivity|discriminate].
+    - rewrite sem_and in HT. apply in_app_or in Hin.
+      destruct (sm e1) eqn:E1, (sm e2) eqn:E2; try discriminate. destruct Hin; eauto.
+    - rewrite sem_paren in HT. eauto.
+  Qed.
+End Gen.
+
+(* ------------------------------------------------------------------ CASE assigns exactly one level *)
+Lemma isT_true o : isT o = true -> o = T.
+Proof. destruct o; cbn; congruence. Qed.
+Lemma isT_false o : isT o = false -> o <> T.
+Proof. destruct o; cbn; congruence. Qed.
+
+Lemma pick_le outs : pick outs <= length outs.
+Proof. induction outs as [|o t IH]; cbn; [lia|]. destruct (isT o); lia. Qed.
+
+Lemma pick_chosen outs : chosen outs (pick outs).
+Proof.
+  induction outs as [|o t [IH1 IH2]]; cbn [pick].
+  - split; [intros i Hi; lia|right; reflexivity].
+  - destruct (isT o) eqn:E.
+    + split; [intros i Hi; lia|]. left. cbn. f_equal. now apply isT_true.
+    + split.
+      * intros [|i] Hi; cbn; [now apply isT_false|]. apply IH1. lia.
+      * destruct IH2 as [IH2|IH2]; [left; exact IH2|right; cbn; now f_equal].
+Qed.
+
+Lemma chosen_unique outs : forall k, chosen outs k -> k = pick outs.
+Proof.
+  induction outs as [|o t IH]; intros k [H1 H2]; cbn [pick].
+  - destruct H2 as [H2|H2]; [destruct k; discriminate|exact H2].
+  - destruct (isT o) eqn:E.
+    + destruct k; [reflexivity|]. exfalso. apply (H1 0); [lia|]. cbn. now apply isT_true.
+    + destruct k as [|k].
+      * exfalso. destruct H2 as [H2|H2]; [|discriminate]. cbn in H2. injection H2 as ->. discriminate.
+      * f_equal. apply IH. split.
+        -- intros i Hi. apply (H1 (S i)). lia.
+        -- destruct H2 as [H2|H2]; [left; exact H2|right; cbn in H2; lia].
+Qed.
+
+Lemma exactly_one_level outs : exists! k, chosen outs k.
+Proof.
+  exists (pick outs). split; [apply pick_chosen|]. intros k Hk. symmetry. now apply chosen_unique.
+Qed.
+
+(* ------------------------------------------------------------------ levels_ok *)
+Lemma Qlt_b_spec a b : Qlt_b a b = true <-> (a < b)%Q.
+Proof.
+  unfold Qlt_b. rewrite negb_true_iff. split.
+  - intros H. apply Qnot_le_lt. intros Hle. apply Qle_bool_iff in Hle. congruence.
+  - intros H. destruct (Qle_bool b a) eqn:E; [|reflexivity]. apply Qle_bool_iff in E.
+    exfalso. eapply Qlt_not_le; eauto.
+Qed.
+Lemma Qle_bool_false a b : Qle_bool a b = false <-> (b < a)%Q.
+Proof. rewrite <- Qlt_b_spec. unfold Qlt_b. now rewrite negb_true_iff. Qed.
+
+(* earlier, stricter threshold: whatever it accepts the later one accepts too *)
+Lemma stricter_nested op ti tj v : stricter op ti tj = true -> sat op ti v = true -> sat op tj v = true.
+Proof.
+  destruct op; cbn; try discriminate; rewrite ?Qlt_b_spec, ?negb_true_iff, ?Qle_bool_false, ?Qle_bool_iff; intros H1 H2.
+  - eapply Qlt_trans; eauto.
+  - eapply Qle_trans; [eauto|]. now apply Qlt_le_weak.
+  - eapply Qlt_trans; eauto.
+  - eapply Qle_trans; [|eauto]. now apply Qlt_le_weak.
+Qed.
+
+(* a value exactly on the later threshold is accepted by it and rejected by the earlier one *)
+Lemma stricter_witness op ti tj : stricter op ti tj = true -> (op = CLe \/ op = CGe) ->
+  sat op tj tj = true /\ sat op ti tj = false.
+Proof.
+  intros H [-> | ->]; cbn in *; rewrite Qlt_b_spec in H; split;
+    try (apply Qle_bool_iff; apply Qle_refl); now apply Qle_bool_false.
+Qed.
+Lemma stricter_witness_strict op ti tj : stricter op ti tj = true -> (op = CLt \/ op = CGt) ->
+  sat op tj ti = true /\ sat op ti ti = false.
+Proof.
+  intros H [-> | ->]; cbn in *; rewrite Qlt_b_spec in H; rewrite negb_true_iff, negb_false_iff; split;
+    try (apply Qle_bool_iff; apply Qle_refl); now apply Qle_bool_false.
+Qed.
+
+Lemma atom_pair_ok_same op lhs ti tj :
+  atom_pair_ok (op, lhs, ti) (op, lhs, tj) = true -> stricter op ti tj = true.
+Proof.
+  cbn. assert (E1 : cmp_eqb op op = true) by (destruct op; reflexivity).
+  assert (E2 : forall e, expr_eqb e e = true).
+  { induction e using expr_ind2; cbn [expr_eqb];
+      rewrite ?IHe, ?IHe1, ?IHe2, ?String.eqb_refl, ?Bool.eqb_reflx; cbn; auto.
+    - destruct v; cbn; auto using Bool.eqb_reflx, Z.eqb_refl, String.eqb_refl.
+      + unfold Q_eqb. now rewrite Z.eqb_refl, Pos.eqb_refl.
+      + induction l; cbn; auto. now rewrite String.eqb_refl.
+    - destruct op0; reflexivity.
+    - destruct op0; reflexivity.
+    - rewrite andb_true_r. induction H as [|[c v] t [Hc Hv] Ht IH]; auto. cbn [fst snd] in *. now rewrite Hc, Hv.
+    - induction H as [|x t Hx Ht IH]; auto. now rewrite Hx. }
+  now rewrite E1, E2.
+Qed.
+
+Lemma ordered_ok_pairs ls : ordered_ok ls = true ->
+  forall i j li lj, i < j -> nth_error ls i = Some li -> nth_error ls j = Some lj -> pair_ok li lj = true.
+Proof.
+  induction ls as [|l t IH]; intros H i j li lj Hij Hi Hj; [destruct i; discriminate|].
+  cbn in H. apply andb_true_iff in H as [H1 H2].
+  destruct j as [|j]; [lia|]. cbn in Hj. destruct i as [|i].
+  - injection Hi as <-. rewrite forallb_forall in H1. apply H1. eapply nth_error_In; eauto.
+  - cbn in Hi. apply (IH H2 i j li lj); [lia|exact Hi|exact Hj].
+Qed.
+
+Lemma levels_ok_ordered ls : levels_ok ls = true -> ordered_ok ls = true.
+Proof.
+  destruct ls as [|f r]; [discriminate|]. unfold levels_ok. intros H.
+  repeat match goal with H : _ && _ = true |- _ => apply andb_true_iff in H as [H ?] end. assumption.
+Qed.
+
+Lemma levels_ok_stricter ls : levels_ok ls = true ->
+  forall i j li lj op lhs ti tj, i < j -> nth_error ls i = Some li -> nth_error ls j = Some lj ->
+    In (op, lhs, ti) (cond_atoms li) -> In (op, lhs, tj) (cond_atoms lj) -> stricter op ti tj = true.
+Proof.
+  intros H i j li lj op lhs ti tj Hij Hi Hj Ii Ij.
+  pose proof (ordered_ok_pairs ls (levels_ok_ordered ls H) i j li lj Hij Hi Hj) as Hp.
+  unfold pair_ok in Hp. rewrite forallb_forall in Hp. specialize (Hp _ Ii).
+  rewrite forallb_forall in Hp. specialize (Hp _ Ij). exact (atom_pair_ok_same op lhs ti tj Hp).
+Qed.
+
+(* shape facts *)
+Lemma levels_ok_shape ls : levels_ok ls = true ->
+  exists e0 mid, ls = {| l_null := true; l_cond := Some e0 |} :: mid ++ [{| l_null := false; l_cond := None |}]
+    /\ null_shape e0 = true
+    /\ Forall (fun l => l_null l = false /\ l_cond l <> None) mid.
+Proof.
+  destruct ls as [|[n0 c0] r]; [discriminate|]. unfold levels_ok. cbn [l_null l_cond is_else]. intros H.
+  repeat match goal with H : _ && _ = true |- _ => apply andb_true_iff in H as [H ?] end.
+  destruct c0 as [e0|]; [|discriminate]. destruct n0; [|discriminate].
+  destruct (rev r) as [|lastl mid'] eqn:Er; [discriminate|].
+  apply andb_true_iff in H1 as [Hl Hm].
+  assert (r = rev mid' ++ [lastl]).
+  { rewrite <- (rev_involutive r), Er. reflexivity. }
+  subst r. exists e0, (rev mid'). rewrite forallb_forall in H2.
+  destruct lastl as [nl cl]. assert (nl = false).
+  { specialize (H2 {| l_null := nl; l_cond := cl |}). cbn in H2. apply negb_true_iff, H2, in_or_app. right. now left. }
+  subst nl. unfold is_else in Hl. cbn in Hl. destruct cl; [discriminate|].
+  split; [reflexivity|]. split; [assumption|].
+  apply Forall_forall. intros l Hin. split.
+  - apply negb_true_iff, H2, in_or_app. now left.
+  - rewrite forallb_forall in Hm. apply in_rev in Hin. specialize (Hm l Hin).
+    unfold is_else in Hm. destruct (l_cond l); [discriminate|discriminate].
+Qed.
+
+Lemma conds_app a b : conds (a ++ b) = conds a ++ conds b.
+Proof. unfold conds. apply flat_map_app. Qed.
+
+Lemma conds_length_mid mid : Forall (fun l => l_null l = false /\ l_cond l <> None) mid -> length (conds mid) = length mid.
+Proof.
+  induction 1 as [|l t [_ Hc] Ht IH]; [reflexivity|]. unfold conds in *. cbn.
+  destruct (l_cond l); [|congruence]. cbn. now rewrite IH.
+Qed.
+
+Lemma levels_ok_conds_length ls : levels_ok ls = true -> S (length (conds ls)) = length ls.
+Proof.
+  intros H. destruct (levels_ok_shape ls H) as (e0 & mid & -> & _ & Hm).
+  change (?a :: mid ++ ?b) with ([a] ++ mid ++ b). rewrite !conds_app, !app_length, (conds_length_mid mid Hm).
+  cbn. lia.
+Qed.
+
+(* ------------------------------------------------------------------ closed instances (executable leaves) *)
+Section Std.
+  Variable P : profile.
+  Variable env : bool -> string -> val.
+  Notation ev := (eval P (std_fenv []) env).
+  Notation sm := (sem P (std_fenv []) env).
+  Local Open Scope string_scope.
+
+  Lemma sem_lev_std cl cr t a b tq :
+    ev cl = VStr a -> ev cr = VStr b -> numQ t = Some tq ->
+    sm (gen_fn_thresh "levenshtein" false cl cr t) = doc_le (inject_Z (Z.of_nat (lev a b))) tq.
+  Proof.
+    intros Ha Hb Ht. eapply (sem_fn_thresh P (std_fenv []) env "levenshtein" false); [|exact Ht].
+    rewrite Ha, Hb. reflexivity.
+  Qed.
+  Lemma sem_jaccard_std cl cr t a b tq :
+    ev cl = VStr a -> ev cr = VStr b -> numQ t = Some tq ->
+    sm (gen_fn_thresh "jaccard" true cl cr t) = doc_ge (jaccard a b) tq.
+  Proof.
+    intros Ha Hb Ht. eapply (sem_fn_thresh P (std_fenv []) env "jaccard" true); [|exact Ht].
+    rewrite Ha, Hb. reflexivity.
+  Qed.
+  Lemma sem_jaro_std cl cr t a b tq :
+    ev cl = VStr a -> ev cr = VStr b -> numQ t = Some tq ->
+    sm (gen_fn_thresh "jaro_similarity" true cl cr t) = doc_ge (jaro a b) tq.
+  Proof.
+    intros Ha Hb Ht. eapply (sem_fn_thresh P (std_fenv []) env "jaro_similarity" true); [|exact Ht].
+    rewrite Ha, Hb. reflexivity.
+  Qed.
+  Lemma sem_jw_std cl cr t a b tq :
+    ev cl = VStr a -> ev cr = VStr b -> numQ t = Some tq ->
+    sm (gen_fn_thresh "jaro_winkler_similarity" true cl cr t) = doc_ge (jaro_winkler a b) tq.
+  Proof.
+    intros Ha Hb Ht. eapply (sem_fn_thresh P (std_fenv []) env "jaro_winkler_similarity" true); [|exact Ht].
+    rewrite Ha, Hb. reflexivity.
+  Qed.
+End Std.
+
+(* ------------------------------------------------------------------ levels_ok: combined soundness *)
+Lemma atoms_thresh e : forall op lhs t, In (op, lhs, t) (atoms e) -> is_thresh_op op = true.
+Proof.
+  induction e using expr_ind2; cbn [atoms]; intros xop xlhs xt Hin; try contradiction.
+  - destruct e2; try contradiction. destruct (is_thresh_op op) eqn:Hop; [|contradiction].
+    destruct (numQ v); [|contradiction]. destruct Hin as [[= <- <- <-]|[]]. exact Hop.
+  - apply in_app_or in Hin. destruct Hin; eauto.
+  - eauto.
+Qed.
+
+Lemma stricter_any_witness op ti tj : is_thresh_op op = true -> stricter op ti tj = true ->
+  exists v, sat op tj v = true /\ sat op ti v = false.
+Proof.
+  intros Hop Hs. destruct op; try discriminate.
+  - exists ti. apply stricter_witness_strict; auto.
+  - exists tj. apply stricter_witness; auto.
+  - exists ti. apply stricter_witness_strict; auto.
+  - exists tj. apply stricter_witness; auto.
+Qed.
+
+Lemma levels_ok_no_shadow ls : levels_ok ls = true ->
+  forall i j li lj op lhs ti tj, i < j -> nth_error ls i = Some li -> nth_error ls j = Some lj ->
+    In (op, lhs, ti) (cond_atoms li) -> In (op, lhs, tj) (cond_atoms lj) ->
+    (forall v, sat op ti v = true -> sat op tj v = true) /\
+    (exists v, sat op tj v = true /\ sat op ti v = false /\
+       forall P fenv env e, l_cond li = Some e -> numQ (eval P fenv env lhs) = Some v ->
+                            sem P fenv env e <> T).
+Proof.
+  intros H i j li lj op lhs ti tj Hij Hi Hj Ii Ij.
+  pose proof (levels_ok_stricter ls H i j li lj op lhs ti tj Hij Hi Hj Ii Ij) as Hs.
+  split; [intros v; now apply stricter_nested|].
+  assert (Hop : is_thresh_op op = true).
+  { unfold cond_atoms in Ii. destruct (l_cond li); [|contradiction]. eapply atoms_thresh; eauto. }
+  destruct (stricter_any_witness op ti tj Hop Hs) as (v & Hv1 & Hv2).
+  exists v. split; [exact Hv1|]. split; [exact Hv2|].
+  intros P fenv env e He Hq HT. unfold cond_atoms in Ii. rewrite He in Ii.
+  pose proof (atoms_necessary P fenv env e HT op lhs ti v Ii Hq). congruence.
+Qed.
+
+Lemma levels_ok_level_of ls P fenv env : levels_ok ls = true -> level_of P fenv env ls < length ls.
+Proof.
+  intros H. unfold level_of. pose proof (pick_le (map (sem P fenv env) (conds ls))) as Hp.
+  rewrite map_length in Hp. pose proof (levels_ok_conds_length ls H). lia.
+Qed.
+
+(* a record pair with a missing value (in the sense of the first level's own IS NULL tests) is
+   assigned the null level, position 0 *)
+Lemma levels_ok_null_first ls P fenv env e0 rest :
+  ls = {| l_null := true; l_cond := Some e0 |} :: rest -> sem P fenv env e0 = T -> level_of P fenv env ls = 0.
+Proof. intros -> HT. unfold level_of, conds. cbn. now rewrite HT. Qed.
+
+(* PercentageDifferenceLevel on SQLite with INTEGER operands: the faithful model (integer
+   division) is satisfied although the documented percentage difference is 2/3 >= 1/10 *)
+Lemma pctdiff_sqlite_integer_witness :
+  let env := fun (s : bool) (_ : string) => if s then VInt 3 else VInt 9 in
+  sem sqlite_profile (std_fenv []) env (gen_pctdiff (ECol true "x") (ECol false "x") (VNum (1 # 10))) = T
+  /\ doc_pctdiff 3 9 (1 # 10) = F
+  /\ sem duckdb_profile (std_fenv []) env (gen_pctdiff (ECol true "x") (ECol false "x") (VNum (1 # 10))) = F.
+Proof. vm_compute. auto. Qed.
